@@ -565,7 +565,7 @@ def main(seed, tier, args):
     import sys
 
     n = args.cases or (3000 if tier == "quick" else 60000)
-    budget = args.budget or (100 if tier == "quick" else 900)
+    budget = args.budget or (150 if tier == "quick" else 900)
     rc, ev = engine.run_batch(sys.modules[__name__], seed, tier, n, budget)
     c = ev["coverage"]
     print(f"C20 {tier}: {c['evaluations']} cases judged, {c['distinct_nontrivial']} distinct non-trivial, discards {c['discards_by_reason']}, wall {ev['wall_s']}s")
